@@ -762,6 +762,9 @@ def documented_keys_usable(ctx, rng, reg, files, rec, tmp):
             ctx.validated()
 
 
+FORCED_MIXINS = ['tempscalar+add50+', 'add50+tempscalar+', 'Add50+TempScalar+', 'tempscalar+', 'add50+']
+
+
 def component_cases(ctx, rng, reg, mix, header, files, rec, tmp, configobj):
     exprs, metas = [], []
     plan = [('Temperature', 'generate_temperature_profile'), ('Pressure', 'generate_pressure_profile'),
@@ -774,6 +777,10 @@ def component_cases(ctx, rng, reg, mix, header, files, rec, tmp, configobj):
         sec, gen = plan[n % len(plan)]
         scenario = rng.choice(['valid', 'valid', 'valid', 'unknown-key', 'unknown-selector', 'missing-selector',
                                'odd-selector', 'mixin', 'custom'])
+        forced_mixin = None
+        if n < len(FORCED_MIXINS):
+            # every run: each composite selector with two different mixins, in both orders (and the simpler ones)
+            (sec, gen), scenario, forced_mixin = plan[0], 'mixin', FORCED_MIXINS[n]
         sections = {}
         custom = 'None'
         if sec in ('Temperature', 'Pressure', 'Planet', 'Star', 'Optimizer'):
@@ -785,11 +792,12 @@ def component_cases(ctx, rng, reg, mix, header, files, rec, tmp, configobj):
             info = rng.choice(cands)
             ent = gen_component(rng, info, field_of[sec], files, scenario)
             if scenario == 'mixin' and sec == 'Temperature':
-                ent[field_of[sec]] = rng.choice(['tempscalar+', 'TempScalar+', 'tempscalar+tempscalar+', 'nomixin+', 'add50+',
-                                                 'tempscalar+add50+', 'add50+tempscalar+', 'Add50+TempScalar+']) + ent[field_of[sec]]
-                if rng.random() < 0.7:
+                ent[field_of[sec]] = (forced_mixin or rng.choice(
+                    ['tempscalar+', 'TempScalar+', 'tempscalar+tempscalar+', 'nomixin+', 'add50+',
+                     'tempscalar+add50+', 'add50+tempscalar+', 'Add50+TempScalar+'])) + ent[field_of[sec]]
+                if rng.random() < 0.7 or forced_mixin:
                     ent['scale_factor'] = '%g' % rng.uniform(0.5, 2)
-                if rng.random() < 0.5:
+                if rng.random() < 0.5 or forced_mixin:
                     ent['offset'] = '%g' % rng.uniform(10, 90)
             elif scenario == 'custom' and sec == 'Temperature':
                 ent = {'profile_type': rng.choice(['custom', 'Custom']), 'python_file': files['custom']}
